@@ -820,20 +820,18 @@ class Object(ObjectAliasMixin):
     def relative_filepath(self) -> Path:
         """The file path where this object was defined, relative to the current working directory.
 
-        If this object's file path is not relative to the current working directory, return its absolute path.
+        If this object's file path is not relative to the current working directory, return its absolute path
+        (for a namespace package: the absolute path of its first directory).
 
         See also: [`filepath`][griffe.Object.filepath],
         [`relative_package_filepath`][griffe.Object.relative_package_filepath].
-
-        Raises:
-            ValueError: When the relative path could not be computed.
         """
         cwd = Path.cwd()
         if isinstance(self.filepath, list):
             for self_path in self.filepath:
                 with suppress(ValueError):
                     return self_path.relative_to(cwd)
-            raise ValueError(f"No directory in {self.filepath!r} is relative to the current working directory {cwd}")
+            return self.filepath[0]
         try:
             return self.filepath.relative_to(cwd)
         except ValueError:
